@@ -96,13 +96,14 @@ def gen_journal(rng):
     import journalgen
     n = rng.choice((0, 1, 2, 3, 5, 12, 40, 150))
     pattern = rng.choice(("increasing", "increasing", "ties", "same", "subsecond", "stepped_back"))
-    gents = journalgen.gen_entries(rng, n, pattern=pattern)
+    xz = rng.random() < 0.3         # long values, stored XZ-compressed as journald does
+    gents = journalgen.gen_entries(rng, n, pattern=pattern, long_p=0.5 if xz else 0.0)
     for k, e in enumerate(gents):
         e.fields.append((b"_BOOT_ID", e.boot.hex().encode()))        # every real entry stores it
         if rng.random() < 0.3:
             # the sender's own clock: may differ from the receive time in either direction (s4 sorts and filters on the receive time)
             e.fields.append((b"_SOURCE_REALTIME_TIMESTAMP", b"%d" % (e.rt + rng.choice((-5_000_000, -1, 0, 3, 2_000_000)))))
-    data = journalgen.build(gents, rng, seqnum_start=rng.choice((1, 1, 77000)), pad_to=rng.choice((None, None, 65536)))
+    data = journalgen.build(gents, rng, seqnum_start=rng.choice((1, 1, 77000)), pad_to=rng.choice((None, None, 65536)), compress_xz=xz)
     ents = dump_bytes(data)
     if len(ents) != len(gents):
         raise RuntimeError("generated journal: journalctl reads %d entries, generator wrote %d" % (len(ents), len(gents)))
@@ -110,7 +111,7 @@ def gen_journal(rng):
         stored = sorted(set((k_, v_) for (k_, v_) in a["fields"] if not k_.startswith(b"__")))
         if a["rt"] != g.rt or stored != sorted(set(g.fields)):
             raise RuntimeError("generated journal: journalctl reads entry %r differently from what the generator wrote" % (a["cursor"],))
-    return data, ents, "gen(n=%d,%s)" % (n, pattern)
+    return data, ents, "gen(n=%d,%s%s)" % (n, pattern, ",xz" if xz else "")
 
 
 def select(ents, a_us, b_us):
